@@ -93,6 +93,7 @@ func c04(c *q.Ctx) {
 		}
 	}
 	txRemap(c)
+	blockCacheCoherent(c)
 	sb := c.Fn(led + "(*Ledger).saveBlock")
 	if sb != nil {
 		keep := func(g q.Cond) bool { return strings.Contains(g.Canon, "p1.") }
@@ -145,5 +146,18 @@ func txRemap(c *q.Ctx) {
 		c.Effect(ct, q.Eff{Spec: "Batch.Put", Arg: 0, Glob: "append(\"C\"," + blk + ".Transactions[].Txid)", Req: []q.Cond{{Canon: "bytes.Equal(" + blk + ".Transactions[].Blockid,p1)", Sense: false}}, Why: "a transaction mapped elsewhere is re-mapped", Rule: "K6"})
 		c.ArgIs(ct, "Batch.Put", -1, "p2", 1, "staged in the confirmation's batch, not written directly")
 		c.FieldStore(ct, "Transaction.Blockid", blk+".Transactions[]", "p1", "re-mapped to the new-trunk block")
+	}
+}
+
+// blockCacheCoherent: every header that is saved again is dropped from the full-block cache, which may hold an
+// older copy (QueryBlock and IsTxInTrunk answer from it); shared by C04 and C05.
+func blockCacheCoherent(c *q.Ctx) {
+	const led = "bcs/ledger/xledger/ledger::"
+	if sb := c.Fn(led + "(*Ledger).saveBlock"); sb != nil {
+		c.Effect(sb, q.Eff{Spec: "LRUCache.Del", Arg: -2, Glob: "p0.blockCache", Exact: true, Keep: func(q.Cond) bool { return true }, Why: "a re-saved header is never served from an older full-block copy (trunk switch: InTrunk / NextHash of every block that leaves or joins the main chain)", Rule: "K9"})
+		c.Effect(sb, q.Eff{Spec: "LRUCache.Del", Arg: 0, Glob: "p1.Blockid", Why: "the entry dropped is the saved block's", Rule: "K9"})
+	}
+	if tr := c.Fn(led + "(*Ledger).Truncate"); tr != nil {
+		c.Effect(tr, q.Eff{Spec: "LRUCache.Del", Arg: -2, Glob: "p0.blockCache", Why: "the new tip, whose header is rewritten by the truncation, is dropped from the full-block cache", Rule: "K9"})
 	}
 }
